@@ -137,6 +137,13 @@ def strategy(tier):
 
 def enumerate_cases(tier):
     out = [{"g": "pinned", "src": p["src"], "dst": p["dst"], "mag": p["mag"], "mag2": {"t": "float", "v": 1.5}} for p in PINNED]
+    scales = ["kelvin", "celsius", "fahrenheit", "Rankine"]
+    for i, a in enumerate(scales):
+        for j, b in enumerate(scales):
+            if a != b:
+                for k, (pa, pb) in enumerate((("", ""), ("milli", ""), ("", "kilo"))):
+                    mag = [{"t": "int", "v": 0}, {"t": "float", "v": 100.0}, {"t": "dec", "v": "-40.5"}][(i + j + k) % 3]
+                    out.append({"g": "scales", "a": a, "pa": pa, "b": b, "pb": pb, "mag": mag, "mag2": {"t": "float", "v": 300.0}})
     out += [{"g": "chain", "n": n} for n in ((30, 200, 700) if tier == "quick" else (30, 200, 399, 400, 700, 880, 1200))]
     return out
 
